@@ -661,7 +661,8 @@ public:
 
     auto get() const -> integer_t
     {
-        const BitField channel_mask = static_cast< integer_t >( parent_t::max_val ) <<_first_bit;
+        // (shift in the bit field's type: integer_t has 32 bits or less, bit offset + width may exceed them)
+        const BitField channel_mask = static_cast< BitField >( parent_t::max_val ) <<_first_bit;
         return static_cast< integer_t >(( this->get_data()&channel_mask ) >> _first_bit );
     }
 };
@@ -707,13 +708,15 @@ public:
 
     auto get() const -> integer_t
     {
-        BitField const channel_mask = static_cast< integer_t >( parent_t::max_val ) << _first_bit;
+        BitField const channel_mask = static_cast< BitField >( parent_t::max_val ) << _first_bit;
         return static_cast< integer_t >(( this->get_data()&channel_mask ) >> _first_bit );
     }
 
     void set_unsafe(integer_t value) const {
-        const BitField channel_mask = static_cast< integer_t >( parent_t::max_val ) << _first_bit;
-        this->set_data((this->get_data() & ~channel_mask) | value<<_first_bit);
+        // the mask and the value are shifted in the bit field's type: integer_t has 32 bits or less, and
+        // bit offset + width may exceed them (a 30-bit channel at bit 3 of a 64-bit field lost its top bit)
+        const BitField channel_mask = static_cast< BitField >( parent_t::max_val ) << _first_bit;
+        this->set_data((this->get_data() & ~channel_mask) | (static_cast< BitField >( value ) << _first_bit));
     }
 };
 } }  // namespace boost::gil
